@@ -104,12 +104,19 @@ def blt_tok(item):
             return {'n': str(int(item))}
         except ValueError:
             return 'udigit'
+    if '/' in item:
+        try:
+            return {'d': fstr(Fraction(item))}
+        except (ValueError, ZeroDivisionError):
+            return 'bad'
     try:
         d = Decimal(item)
     except InvalidOperation:
         return 'bad'
-    if d.is_snan() or d.is_infinite():
+    if d.is_infinite():
         return None                   # outside the token model
+    if d.is_snan():
+        return 'bad'                  # comparing a signalling NaN raises InvalidOperation (an ArithmeticError)
     if d.is_nan():
         return 'nan'
     return {'d': fstr(d)}
@@ -156,10 +163,12 @@ def ref_blt(text):
                 out.append(int(it))
             elif i == 0 and first_decimal and re.fullmatch(r'[+-]?([0-9]+\.?[0-9]*|\.[0-9]+)([eE][+-]?[0-9]+)?', it):
                 out.append(Decimal(it))
-            elif it.isdigit() or (i == 0 and first_decimal and _decimal_ok(it)):
-                raise Unspecified('exotic digits')
+            elif i == 0 and first_decimal and _decimal_ok(it) and Decimal(it).is_nan():
+                raise Invalid('NaN weight')
+            elif (it.isdigit() and _int_ok(it)) or (i == 0 and first_decimal and (_decimal_ok(it) or _fraction_ok(it))):
+                raise Unspecified('exotic spelling of a number')
             elif i == 0 and first_decimal and re.fullmatch(r'[0-9]+/[1-9][0-9]*', it):
-                raise Unspecified('a fraction p/q as weight: not in the format, but the only spelling of a Fraction weight')
+                out.append(Fraction(it))      # the spelling the writer gives a Fraction weight
             else:
                 raise Invalid(f'not a number: {it!r}')
         return out
@@ -209,7 +218,7 @@ def ref_blt(text):
         if key not in ballots:
             ballots[key] = 0
             order.append(key)
-        ballots[key] += nums[0]
+        ballots[key] += Fraction(nums[0])
         seen_ballot = True
     strings = []
     blank = False
@@ -244,6 +253,22 @@ def ref_blt(text):
             'ballots': [[list(k), fstr(ballots[k])] for k in order], 'title': title}
 
 
+def _int_ok(it):
+    try:
+        int(it)
+        return True
+    except ValueError:
+        return False
+
+
+def _fraction_ok(it):
+    try:
+        Fraction(it)
+        return '/' in it
+    except (ValueError, ZeroDivisionError):
+        return False
+
+
 def _decimal_ok(it):
     try:
         Decimal(it)
@@ -264,7 +289,7 @@ def gen_weight(rng, kinds=('int', 'dec', 'frac')):
         return {'k': 'int', 'v': str(rng.choice([1, 1, 1, 2, 3, 5, 12, 0, 4000]))}
     if k == 'dec':
         return {'k': 'dec', 'v': rng.choice(['1.5', '0.25', '2', '3.0', '10.125', '1.50', '7', '0.001', '100', '1000000000000.5'])}
-    return {'k': 'frac', 'v': rng.choice(['2', '3', '1', '7'])}       # integral Fractions only; proper ones are the hazard
+    return {'k': 'frac', 'v': rng.choice(['2', '3', '1', '7', '1/2', '7/3', '22/7'])}
 
 
 def gen_doc(rng, names=None, max_c=6, person=None, weights=('int', 'dec', 'frac'), title=None, withdrawn=True):
